@@ -130,6 +130,7 @@ def run(ctx: Ctx) -> None:
         outs, driver = record_and_judge(ctx, jobs, torn=2 if q else 6, reader_every=1, tag="a",
                                         groups=2 if q else 6)
         judge_crash_outputs(ctx, jobs, outs, driver)
+        sigkill_validation(ctx, 1 if q else 8, 2 if q else 6)
     finally:
         H.shutdown_pool()
 
@@ -240,6 +241,71 @@ def validate_traces(ctx: Ctx, jobs, outs):
     if n_ok:
         gj, tr = next(iter(groups.values()))[0]
         ctx.sample({"kind": "recorded trace (abstract events)", "events": tr[:14]})
+
+
+def sigkill_validation(ctx: Ctx, n_jobs: int, kills_per_job: int) -> None:
+    """Thorough tier: validate the materialiser against reality. A history is recorded normally; then the same
+    history is run again and the writer is really killed (strace fault injection: SIGKILL on entry of the N-th
+    rename) and the directory it leaves behind is projected and compared with the materialised state at that point."""
+    from .. import dsreal
+    rng = random.Random(ctx.seed + 66)
+    labels = [("Create", []), ("BeginFiller", [[]]), ("Write", [0, "train", "None", "good"]),
+              ("Write", [0, "train", "None", "good"]), ("Write", [0, "test", "A", "good"]),
+              ("Write", [0, "train", "None", "good"]), ("ExitFiller", [0]), ("SessionDone", []),
+              ("BeginFiller", [["s"]]), ("Write", [0, "train", "None", "good"]), ("Write", [0, "train", "None", "good"]),
+              ("Write", [0, "train", "None", "good"]), ("ExitFiller", [0]), ("SessionDone", [])]
+    n_cmp = n_equal = 0
+    for ji in range(n_jobs):
+        fmt, comp = [("fb", ""), ("npz", ""), ("tfrec", ""), ("fb", "GZIP")][ji % 4]
+        job = {"labels": labels, "fmt": fmt, "compression": comp, "hashes": ["sha256"], "eps": 2,
+               "single_process": True}
+        d = ctx.tmp / f"kill_{ji}"
+        d.mkdir(parents=True, exist_ok=True)
+        (d / "jobs.json").write_text(json.dumps([job]))
+        st = fsrec.record(d / "jobs.json", d)
+        events = fsrec.parse(st)
+        st.unlink()
+        byjob = crash.split_jobs(events)
+        root = byjob[0]["root"]
+        # ordinal (among ALL rename syscalls of the process) of every rename inside the dataset root
+        ordinals, k = [], 0
+        for e in events:
+            if e["k"] == "fs" and e["op"] == "rename" and e.get("sys") == "rename":
+                k += 1
+                if e["p"].startswith(root + "/"):
+                    ordinals.append(k)
+        out = crash.judge_job({"root": root, "events": byjob[0]["events"], "fmt": fmt, "compression": comp,
+                               "hashes": ["sha256"], "torn": 0, "reader_every": 10 ** 6})
+        if out["error"]:
+            raise MachineryError(out["error"])
+        rename_states = [i for i, s_ in enumerate(out["states"]) if "(rename" in s_["point"]]
+        if len(rename_states) != len(ordinals):
+            raise MachineryError("rename bookkeeping mismatch in the SIGKILL validation")
+        for which in rng.sample(range(len(ordinals)), min(kills_per_job, len(ordinals))):
+            kd = ctx.tmp / f"kill_{ji}_{which}"
+            kd.mkdir(parents=True, exist_ok=True)
+            (kd / "jobs.json").write_text(json.dumps([job]))
+            fsrec.record(kd / "jobs.json", kd, inject=f"inject=rename:signal=SIGKILL:when={ordinals[which]}")
+            (kd / "strace.txt").unlink(missing_ok=True)
+            left = kd / "roots" / "job0"
+            proj = dsreal.Projector(fmt, comp, ("sha256",))
+            real_files, _, _ = dsreal.canonical(proj.project(left))
+            want_state = out["states"][rename_states[which] - 1] if rename_states[which] > 0 else {"files": []}
+            want = {tuple(f["p"]): f["c"] for f in want_state["files"]}
+            n_cmp += 1
+            # digests of older versions cannot be resolved in the killed run (it never saw them): compare modulo them
+            diff = dsreal.diff_files(want, real_files)
+            if not diff:
+                n_equal += 1
+            else:
+                ctx.add_drift(f"SIGKILL before rename #{which + 1} ({fmt}): directory left by the killed writer differs "
+                              f"from the materialised crash state: {diff[0][:300]}")
+            import shutil as _sh
+            _sh.rmtree(kd, ignore_errors=True)
+    ctx.cov["real_sigkill_crashes_compared"] = n_cmp
+    ctx.cov["real_sigkill_crashes_equal_to_materialised_state"] = n_equal
+    ctx.log(f"materialiser validation: {n_cmp} real SIGKILLs (on entry of a rename), {n_equal} left exactly the "
+            f"materialised state")
 
 
 def replay(ctx: Ctx, body: dict) -> None:
